@@ -219,6 +219,14 @@ class StepChecker:
                 legal = z3.BoolVal(False)
             oblige('C05', 'framing', legal, 'socket write %r via %s' % (sym, how))
             oblige('C05', 'non-empty-write', z3.UGT(total, 0), 'empty socket write via %s' % how)
+            if ex.out.get('faults_used', 0) > 0:
+                # "failures never corrupt the framing of later datagrams"
+                oblige('C07', 'framing-after-failure', legal, 'after a failed socket write: socket write %r via %s' % (sym, how))
+            if mlen is not None and sym == (m,) and pre:
+                # "metrics that fit in the buffer leave in the order in which they were emitted": a metric written on its
+                # own while earlier ones are still buffered must be one that cannot be buffered
+                oblige('C06', 'order', z3.Or(b == 0, z3.UGT(mlen + elen, cap)),
+                       'metric written before the metrics buffered earlier although it fits the buffer (%s)' % how)
 
         okev = [atoms_of(ev[1], None) for ev in wire if ev[3] == 'ok']
         sent_L = sum(1 for s in okev if pre and s[:len(pre)] == pre)
